@@ -223,6 +223,33 @@ func init() {
 	})
 }
 
+func init() {
+	register(&Property{
+		ID:          "C15",
+		Patterns:    enginePatterns,
+		HarnessDirs: []string{"internal/check/zzverif"},
+		ReplayTags:  "sqlite",
+		Assumptions: engineAssumptions,
+		Outside:     append([]string{"cancellation instants other than 'before the call' and 'inside storage call c'", "real-time promptness (only 'returns' is decided)"}, engineOutside...),
+		Runs: func(tier string) []Run {
+			mk := func(name string, fam, k, g int64) Run {
+				r := engineRun(name, "HarnessC15", map[string]int64{"family": fam, "K": k, "objs": 2, "G": g, "maxCalls": pick(tier, 6, 10)})
+				r.Reach = []string{"c15.returned"}
+				r.BudgetIsViolation = true
+				r.MaxDepth = 300
+				return r
+			}
+			return []Run{
+				mk("operator-set", 4, pick(tier, 1, 2), 3),
+				mk("recursive-permissions", 3, pick(tier, 1, 2), 3),
+			}
+		},
+		Bounds: func(tier string) map[string]interface{} {
+			return map[string]interface{}{"rows": pick(tier, 1, 2), "objects": 2, "global depth": 3, "cancellation": "before the call, or inside storage call c for symbolic c <= " + itoa(pick(tier, 6, 10)), "fault": "storage call k fails, k symbolic, transient or persistent", "configurations": "operator set + 5 recursive permission configurations, both modes", "call depth budget": 300}
+		},
+	})
+}
+
 func itoa(n int64) string {
 	s := ""
 	if n == 0 {
